@@ -469,7 +469,8 @@ Proof.
 Qed.
 
 (* the compiler accepts what entityNode.run accepts as soon as the user's fields are fine
-   (and the query block has no list-request settings: those panic, see [convert_panics]) *)
+   (and the query block has no list-request settings: those are a conversion error, see
+   [convert_list_settings]) *)
 Theorem compile_expand : forall e,
   list_settings e = false ->
   (forall fl, user_refs_ok e (defined (expand_with e fl)) = true) ->
@@ -500,19 +501,23 @@ Proof.
     rewrite (closed_user_refs e fl Ec) in EU. discriminate.
 Qed.
 
-(* Go panics are not hidden: the conversion panics exactly when the walker accepted a declaration
-   whose query block carries list-request settings *)
-Theorem convert_panics : forall e,
-  is_panic (convert e) = true <-> (exists cs, expand e = Ok cs) /\ list_settings e = true.
+(* Go panics are not hidden, and there is none left to hide: since fix 985f10a list-request settings
+   in the query block are a positioned conversion error (before, proto.SetExtension panicked) *)
+Theorem convert_never_panics : forall e, is_panic (convert e) = false /\ convert e <> OutOfFuel.
 Proof.
   intros e. unfold convert. destruct (expand e) as [cs| | |] eqn:E.
-  - destruct (list_settings e); cbn.
-    + split; [intros _; split; [now exists cs|reflexivity]|reflexivity].
-    + split; [|intros [_ H]; discriminate].
-      destruct (closed cs); [destruct (fields_ok e); [destruct (query_params_ok e && command_params_ok e)|]|]; discriminate.
-  - cbn. split; [discriminate|intros [[cs H] _]; discriminate].
+  - destruct (closed cs); [destruct (fields_ok e); [destruct (query_params_ok e && command_params_ok e);
+      [destruct (list_settings e)|]|]|]; split; try reflexivity; discriminate.
+  - split; [reflexivity|discriminate].
   - pose proof (expand_total_aux e) as [Hp _]. rewrite E in Hp. discriminate.
-  - cbn. split; [discriminate|intros [[cs H] _]; discriminate].
+  - pose proof (expand_total_aux e) as [_ Hp]. now rewrite E in Hp.
+Qed.
+
+(* a declaration with list-request settings never converts *)
+Theorem convert_list_settings : forall e, list_settings e = true -> forall cs, convert e <> Ok cs.
+Proof.
+  intros e Hls cs. unfold convert. rewrite Hls. destruct (expand e) as [c| | |]; try discriminate.
+  destruct (closed c); [destruct (fields_ok e); [destruct (query_params_ok e && command_params_ok e)|]|]; discriminate.
 Qed.
 
 (* ---- the main file holds exactly Keys, Data, State, EventType, Event -------------- *)
@@ -1162,8 +1167,9 @@ Qed.
 Lemma compile_ok_inv : forall e cs, convert e = Ok cs -> expand e = Ok cs /\ closed cs = true.
 Proof.
   intros e cs H. unfold convert in H. destruct (expand e) as [c| | |] eqn:E; try discriminate.
-  destruct (list_settings e); [discriminate|]. destruct (closed c) eqn:Ec; [|discriminate]. destruct (fields_ok e); [|discriminate].
-  destruct (query_params_ok e && command_params_ok e); [|discriminate]. inversion H; subst. auto.
+  destruct (closed c) eqn:Ec; [|discriminate]. destruct (fields_ok e); [|discriminate].
+  destruct (query_params_ok e && command_params_ok e); [|discriminate].
+  destruct (list_settings e); [discriminate|]. inversion H; subst. auto.
 Qed.
 
 (* a file of entities compiles to the concatenation of the entities' own expansions ... *)
